@@ -485,6 +485,60 @@ pub fn run(prop: &str, tier: &str, replay: Option<&str>) -> i32 {
         });
         rep.add(sec);
     }
+    // 3b''. every string kind as a door: a text that the kind's constructor accepts IS the value: get() and iter() return it
+    // (same kind, same characters), two names holding different texts are unequal, and the certificate says those characters
+    {
+        let mut texts: Vec<String> = crate::certspace::value_shapes().into_iter().map(|s| s.to_string()).collect();
+        texts.extend(["\u{feff}", "\u{feff}\u{feff}a", "\u{fffe}a", "a\u{feff}b", "\u{200b}a", "\u{ffef}a", "A", "a "].iter().map(|s| s.to_string()));
+        let kinds = [StrKind::Utf8, StrKind::Printable, StrKind::Ia5, StrKind::Teletex, StrKind::Bmp, StrKind::Universal];
+        let types = [DnTypeSpec::Cn, DnTypeSpec::Custom(vec![1, 2, 3, 4])];
+        let cases: Vec<(usize, usize, usize)> = (0..texts.len()).flat_map(|t| (0..6usize).flat_map(move |k| (0..2usize).map(move |y| (t, k, y)))).collect();
+        let sec = Section::new("values/string kinds", &format!("{} texts (value shapes; U+FEFF / U+FFFE / U+200B at the start, inside, doubled) x 6 string kinds x 2 attribute types: where the kind's constructor accepts the text, get() and iter() return that kind with exactly those characters, the name differs from the one holding the text without its first character, and the encoded subject says the characters", texts.len()));
+        run::sweep_cases(&sec, &cases, &|c| format!("{:?} as {:?} under {:?}", texts[c.0], kinds[c.1], types[c.2]), &|c| {
+            let mut out = Outcome::default();
+            let (t, k, ty) = (&texts[c.0], kinds[c.1], &types[c.2]);
+            let spec = DnSpec(vec![(DnTypeSpec::O, StrKind::Utf8, "before".into()), (ty.clone(), k, t.clone())]);
+            // (a text outside the kind's alphabet is refused by the constructor: C13's subject, nothing to hold here)
+            let Ok(name) = crate::glue::to_dn(&spec) else { return out };
+            out.transitions = 3;
+            out.digest = fnv(format!("{:?}{:?}", k, t).as_bytes());
+            let back = crate::glue::dn_to_spec(&name);
+            if back != spec {
+                out.findings.push(Finding::new("DN-VALUE-DOOR", "iter()", format!("holds {:?} after pushing {:?}", back.0, spec.0)));
+            }
+            let got = name.get(&crate::glue::to_dn_type(ty)).map(|v| {
+                let mut one = DistinguishedName::new();
+                one.push(crate::glue::to_dn_type(ty), v.clone());
+                crate::glue::dn_to_spec(&one).0.pop()
+            });
+            if got != Some(Some((ty.clone(), k, t.clone()))) {
+                out.findings.push(Finding::new("DN-VALUE-DOOR", "get()", format!("returns {:?} after pushing {:?} as {:?}", got, t, k)));
+            }
+            // the same name without the text's first character is another name
+            let mut chars = t.chars();
+            if chars.next().is_some() {
+                let shorter = DnSpec(vec![(DnTypeSpec::O, StrKind::Utf8, "before".into()), (ty.clone(), k, chars.as_str().to_string())]);
+                if let Ok(other) = crate::glue::to_dn(&shorter) {
+                    if other == name {
+                        out.findings.push(Finding::new("DN-EQUALITY", "==", format!("the names holding {:?} and {:?} as {:?} compare equal", t, chars.as_str(), k)));
+                    }
+                }
+            }
+            let mut p = rcgen::CertificateParams::default();
+            p.distinguished_name = name;
+            if let SubjectSrc::Pair(kp) = &ctx.subject {
+                if let Ok(Ok(cert)) = guarded(|| p.self_signed(kp)) {
+                    let abs = refmodel::x509::decode_cert(cert.der()).value;
+                    let got: Vec<Option<String>> = abs.map(|a| a.subject.iter().flatten().map(|x| x.text()).collect()).unwrap_or_default();
+                    if got != vec![Some("before".to_string()), Some(t.clone())] {
+                        out.findings.push(Finding::new("DN-VALUE-DOOR", "encoded subject", format!("{:?} as {:?} is encoded as {:?}", t, k, got)));
+                    }
+                }
+            }
+            out
+        });
+        rep.add(sec);
+    }
     // 3c. long runs: every ordered pair of operations alternating far beyond any counter an implementation might keep
     // (70,000 steps, thorough 300,000: past 256 and 65,536), oracle on every step
     if run::replay().map(|r| r.case.get("history").is_none()).unwrap_or(true) {
